@@ -212,7 +212,7 @@ theorem sequence_compositional (v : Variant) (m n : Nat) (sb : Cpu × β) :
     simp only [run]
     exact ih _
 
-/-- **The code as it is (`Variant.code`) equals the reference on every instruction except
+/-- **rustzx before the repair eaf876f (`Variant.code`) equals the reference on every instruction except
 `LD (nn),A` and `OUT (n),A`** (true partial statement; the hypothesis excludes the known defect). -/
 theorem code_eq_hw_except_memptr_partial (p : Pfx) (i : Instr) (s : Cpu) (b : β)
     (h1 : i ≠ .ldNNA) (h2 : i ≠ .outNA) : exec .code p i s b = exec .hw p i s b := by
@@ -230,8 +230,9 @@ end structural
 def witnessBus : RecBus :=
   { mem := fun a => if a = 0x8000 then 0x32 else if a = 0x8001 then 0x34 else if a = 0x8002 then 0x12 else 0 }
 
-/-- **The code violates the property on a concrete input** (DESIGN §9 #1): `LD (0x1234),A` with
-A = 0x55 leaves MEMPTR = 0x5535 on the Z80 and 0x5735 in rustzx's arithmetic. -/
+/-- **The unrepaired code violated the property on a concrete input** (DESIGN §9 #1, fixed by /repo
+commit eaf876f): `LD (0x1234),A` with A = 0x55 leaves MEMPTR = 0x5535 on the Z80 and 0x5735 in the
+old arithmetic. -/
 theorem code_memptr_violates :
     (emulate .hw (({ a := 0x55, pc := 0x8000 } : Cpu), witnessBus)).1.memptr = 0x5535 ∧
     (emulate .code (({ a := 0x55, pc := 0x8000 } : Cpu), witnessBus)).1.memptr = 0x5735 := by
